@@ -5,7 +5,7 @@ import DoitModel.Proofs.C08DynTotal
 
 Every finished `run_status` and every terminal report equals the schedule-independent denotation `Dyn.DenOf` in every
 reachable state of the serial and of the parallel system; complete runs report exactly `Dyn.DenCl`; hence two complete
-runs of the same task table (same `calcRes` oracle) and selection agree on every report and on the exit code.  No
+runs of the same task table (same `calcRes` / `calcResFail` oracles) and selection agree on every report and on the exit code.  No
 acyclicity hypothesis: a run that ends normally (`halt = none`) has derived every outcome it reports. -/
 namespace DoitModel.Run.Dyn
 
